@@ -25,7 +25,7 @@ CHECKS = {
     "C05": ("model_checking",
             "stateless model checking of the real par.rs under loom (DPOR, preemption bound 2/3, every scenario in its own process) + explicit-state exploration of a protocol model with stateright, bound to the code by replaying every loom execution's event log through the model; breadth over inputs with real threads",
             "Every interleaving (up to the preemption bound) of the feeding, encoding and hashing threads of the real implementation is executed for a grid of worker counts, environment overrides, frame counts and deliveries, and its bytes compared with the single-thread stream and the frame-level assembly; a protocol model explored exhaustively extends the schedule quantifier to more workers/frames, and is validated against the implementation trace by trace.",
-            "loom models std::sync/std::thread; the bounded-channel stand-in models crossbeam-channel; loom limited to 3 workers; thread-local scratch is shared by loom's coroutines (history dependence is C10's subject); the real-thread breadth part samples one OS schedule per encode and is supplementary.",
+            "loom models std::sync/std::thread; the bounded-channel stand-in models crossbeam-channel; loom limited to 3 workers; the crate's thread-local scratch is loom::thread_local storage in the loom build (per modelled thread, hook 82b277e), call-history dependence across calls is C10's subject; the real-thread breadth part samples one OS schedule per encode and is supplementary.",
             "DESIGN.md 3 C05"),
     "C06": ("model_checking",
             "stateless model checking of the real par.rs under loom with scripted source faults (read error at every position, out-of-range sample in every block, pairs) + explicit-state exploration of the protocol model under the same fault scripts (stateright), traces replayed through the model",
@@ -35,7 +35,7 @@ CHECKS = {
     "C07": ("exploration",
             "exhaustive enumeration of all single- and two-field deviations of the configuration from three valid base points over boundary/extreme value grids; reference predicate written from the documented ranges; accepted configurations run on a probe corpus",
             "into_verified().is_ok() is compared with a documented-range predicate for ~10^4 configurations (every 1- and 2-field deviation), and every accepted in-range configuration must encode 7-8 probe inputs without panic and losslessly (two decoders).",
-            "Ranges taken from the statement and the doc comments; probe inputs are the six universe base inputs plus two shapes; built without the experimental feature.",
+            "Ranges taken from the statement and the doc comments; probe inputs are the six universe base inputs plus two shapes; built without the experimental feature (thorough: also with it); worker counts {None,1,2,3,300,2^32+1,usize::MAX}, the ones above 1024 probed in a child process because an allocation failure aborts.",
             "DESIGN.md 3 C07"),
     "C10": ("exploration",
             "exhaustive enumeration of all call sequences of length <= 2 (quick) / <= 3 (thorough) over an alphabet of ~25 calls, each sequence on one fresh thread; call-by-call bytes compared with the same call alone on a fresh thread",
@@ -58,24 +58,24 @@ CHECKS = {
             "FrameBuf contents are read through its Debug rendering (the only public view); 4 capacities; 3 value patterns.",
             "DESIGN.md 3 C14"),
     "C16": ("fault_enumeration",
-            "fault enumeration: every non-zero XOR mask on every frame byte, every burst of width 2..=8 at every bit offset, truncation after every byte, every value of 1 (and 2) bytes at grammar cut points, over a corpus of small emitted streams; plus a fixed list of pseudo-random inputs",
+            "fault enumeration: every non-zero XOR mask on every frame byte, every burst of width 2..=8 at every bit offset, truncation after every byte, every value of 1 (and 2) bytes at grammar cut points, checksum-consistent substitutions of header/body bytes, every STREAMINFO width code x channel code with the frame headers deferring to STREAMINFO (checksums recomputed), over a corpus of small emitted streams; plus a fixed list of pseudo-random inputs",
             "Every alteration of at most 8 contiguous bits inside a frame of each corpus stream is parsed: the parser must not panic and must either reject the stream or return identical audio; truncations, substitutions and a fixed list of arbitrary inputs must not panic.",
             "Corpus of 12 (quick) / 20 (thorough) streams of 100-700 bytes; allocation failure and hangs are watched by the runner's watchdog.",
             "DESIGN.md 3 C16"),
     "C17": ("exploration",
             "exhaustive enumeration of every public entry point of the encoding API x every argument over a boundary / wrap-around grid (others valid), incl. out-of-width samples at each block position, byte fills with every bytes-per-sample against every declared width and fills of every length around the capacity; domain predicate from the statement",
             "Every argument class the statement lists as outside the supported domain must give Err (not Ok, not a panic, not a hang) on every entry point, single- and multi-thread; plainly valid arguments must give Ok; unclassified arguments are executed and recorded but not judged.",
-            "Domain predicate written from the statement; widths 9..=25 other than 12/16/20/24, rate 0, fills that are not a multiple of the channel count and StreamInfo/FrameBuf channel disagreement are recorded only.",
+            "Domain predicate written from the statement; every width other than 8/12/16/20/24 counts as unsupported; block sizes also reach the frame-level entry point through FrameBuf::resize; rate 0, fills that are not a multiple of the channel count and StreamInfo/FrameBuf channel disagreement are recorded only.",
             "DESIGN.md 3 C17"),
     "C18": ("exploration",
             "exhaustive enumeration of every public component constructor over grids of boundary / inconsistent arguments (all combinations of at most two deviating arguments); post-conditions verify / write x3 / count_bits / parse-back identity",
             "Each constructor call must return Err, or a component that verifies, serialises into three sinks to exactly count_bits() bits and parses back to a component that re-serialises and renders identically; no panic in constructor, verify, count, write or parser.",
-            "Setters that return no Result (set_total_samples) are outside the statement and not probed beyond their field width.",
+            "Setters that return no Result (set_total_samples) are outside the statement and not probed beyond their field width; StreamInfo::new / Stream::new are probed both as returned and after their setters.",
             "DESIGN.md 3 C18"),
     "C19": ("exploration",
             "exhaustive enumeration: TOML round trip over every 1- and 2-field deviation of the configuration; documents written by the harness with every subset (thorough: all 2^19) of the 19 leaf keys omitted, compared with a documented-defaults table",
             "Round trip equality, default substitution for exactly the omitted leaves and agreement of verify() with the documented ranges are checked for ~9k values and for every omission subset of the 19 leaf keys (quick: subsets of size <= 3 or co-size <= 2).",
-            "Values TOML cannot carry (NaN, integers >= 2^63) excluded; documents in which an enum's tag is omitted omit the whole enum; defaults table written from the doc comments (multithread default true: built with feature par).",
+            "Values TOML cannot carry (NaN, integers >= 2^63) excluded; documents in which an enum's tag is omitted omit the whole enum (partitions / alpha can be omitted while the tag is present); defaults table written from the doc comments (multithread default true: built with feature par).",
             "DESIGN.md 3 C19"),
     "C08": ("exploration",
             "exhaustive enumeration of every component of every stream of U_2/U_3 + G9 (encoder- and parser-produced, before/after precompute) and of constructor grids incl. the 2^32 quotient-sum switch; count_bits compared with three sinks",
